@@ -68,4 +68,18 @@ MUTATIONS = [
 		dict(file='src/gambit/sigs/hdf5.py', old="self.kmerspec = KmerSpec(group.attrs['kmerspec_k'], group.attrs['kmerspec_prefix'])", new="self.kmerspec = KmerSpec(group.attrs.get('kmerspec_k', 11), group.attrs.get('kmerspec_prefix', 'ATGAC'))")]),
 	M('c12-list-path-last-chunk', ['C12'], 'src/gambit/sigs/hdf5.py', '\t\t\tfor i in range(n):\n\t\t\t\tvalues[bounds[i]:bounds[i + 1]] = signatures[i]', '\t\t\tfor i in range(n if n < 25 else n - 1):\n\t\t\t\tvalues[bounds[i]:bounds[i + 1]] = signatures[i]', 'list write path skips the last signature of large collections'),
 	M('c12-int-ids-as-str', ['C12'], 'src/gambit/sigs/hdf5.py', "\t\telif ids.dtype.kind in 'ui':\n\t\t\tids_dtype = ids.dtype", "\t\telif ids.dtype.kind in 'ui':\n\t\t\tids = ids.astype(str).astype(object)\n\t\t\tids_dtype = h5.string_dtype()", 'integer ids stored as strings'),
+	# ---- C06 ----------------------------------------------------------------------------------------
+	M('c06-compression-from-ext', ['C06'], 'src/gambit/util/io.py', 'compression = guess_compression(file)', "compression = 'gzip' if str(path).endswith('.gz') else 'none'", 'compression chosen from the file name'),
+	M('c06-newline-raw', ['C06'], 'src/gambit/util/io.py', 'return TextIOWrapper(binary, **kwargs) if mode[1]', "return TextIOWrapper(binary, newline='', **kwargs) if mode[1]", 'universal newlines disabled', expect='silent'),
+	M('c06-concat-records', ['C06'], 'src/gambit/sigs/calc.py', 'return calc_signature(kspec, (record.seq for record in records), accumulator=accumulator)', "return calc_signature(kspec, [b''.join(bytes(record.seq) for record in records)], accumulator=accumulator)", 'contigs concatenated before the search (k-mers across boundaries)'),
+	M('c06-first-record-only-gz', ['C06'], 'src/gambit/sigs/calc.py', 'return calc_signature(kspec, (record.seq for record in records), accumulator=accumulator)', "return calc_signature(kspec, (record.seq for i, record in enumerate(records) if i < 7), accumulator=accumulator)", 'only the first seven contigs are read'),
+	M('c06-magic-wrong', ['C06'], 'src/gambit/util/io.py', "if magic == b'\\x1f\\x8b':", "if magic == b'\\x1f\\x8c':", 'gzip never detected'),
+	# ---- C13 ----------------------------------------------------------------------------------------
+	dict(id='c13-append-in-completion-order', props=['C13'], desc='results appended in completion order', expect='caught', edits=[
+		dict(file='src/gambit/sigs/calc.py', old='\t\tsigs = [None] * len(files)\n', new='\t\tsigs = []\n'),
+		dict(file='src/gambit/sigs/calc.py', old='\t\t\t\tsigs[i] = future.result()\n', new='\t\t\t\tsigs.append(future.result())\n')]),
+	M('c13-index-tail-reversed', ['C13'], 'src/gambit/sigs/calc.py', 'future_to_index[future] = i\n', 'future_to_index[future] = i if i < 4 else (len(files) + 3 - i)\n', 'indices of files beyond the fourth are mirrored'),
+	M('c13-swallow-exception', ['C13'], 'src/gambit/sigs/calc.py', '\t\t\t\tsigs[i] = future.result()\n', '\t\t\t\ttry:\n\t\t\t\t\tsigs[i] = future.result()\n\t\t\t\texcept OSError:\n\t\t\t\t\tsigs[i] = np.empty(0, dtype=kspec.index_dtype)\n', 'unreadable files give an empty signature instead of an error'),
+	M('c13-shutdown-callers-executor', ['C13'], 'src/gambit/sigs/calc.py', '\t\texecutor_context = nullcontext()\n', '\t\texecutor_context = executor\n', 'caller-supplied executor shut down on exit'),
+	M('c13-index-by-completion-count', ['C13'], 'src/gambit/sigs/calc.py', '\t\t\t\ti = future_to_index[future]\n', '\t\t\t\ti = future_to_index[future]\n\t\t\t\tif len(files) == 6 and sigs[0] is None and i == 5:\n\t\t\t\t\tsigs[4], i = None, 4\n', 'only when the last of six files completes before the first: its result lands in slot 4 (later overwritten or not)'),
 ]
